@@ -1,4 +1,4 @@
-//@ unit u9_pipeline props C02 C06 also C18
+//@ unit u9_pipeline props C02 C06 also C18 C03 C11
 // Unit U9: the receiving pipeline of a room synchronisation (src/synchronisation/peer_inbound_service.rs:
 // synchronise_room, synchronise_room_definition, synchronise_day).  Whatever the remote side answers, a node, reference,
 // deletion record, room definition or peer row reaches the database ingestion entry points (add_nodes, add_edges,
@@ -66,6 +66,10 @@ pub open spec fn all_edges_ok(s: Seq<Edge>) -> bool { forall|i: int| 0 <= i < s.
 pub open spec fn all_edge_dels_ok(s: Seq<EdgeDeletionEntry>) -> bool { forall|i: int| 0 <= i < s.len() ==> edge_del_ok(#[trigger] s[i]) }
 pub open spec fn all_node_dels_ok(s: Seq<NodeDeletionEntry>) -> bool { forall|i: int| 0 <= i < s.len() ==> node_del_ok(#[trigger] s[i]) }
 pub open spec fn all_rows_ok(s: Seq<NodeToInsert>) -> bool { forall|i: int| 0 <= i < s.len() ==> ((#[trigger] s[i]).node is Some ==> node_ok(s[i].node->Some_0)) }
+//@ include common/lww_spec.rs
+/// every row handed to the database is the version that was announced for its request, or a newer one (F42)
+pub open spec fn all_rows_as_announced(s: Seq<NodeToInsert>) -> bool { forall|i: int| 0 <= i < s.len() ==> delivered_not_older(#[trigger] s[i]) }
+//@ use-contract u11_lww.rs :: NodeToInsert::is_older_than_announced
 
 /// the signature verification service (thread pool in front of the *_check functions of u4_digests)
 pub struct SignatureVerificationService { x: u8 }
@@ -94,7 +98,9 @@ pub struct GraphDatabaseService { x: u8 }
 impl GraphDatabaseService {
     #[verifier::external_body]
     pub async fn add_nodes(&self, room_id: Uid, nodes: Vec<NodeToInsert>) -> (r: std::result::Result<Vec<Uid>, DbError>)
-        requires all_rows_ok(nodes@)
+        requires all_rows_ok(nodes@),
+            // [delivered_rows_are_the_announced_versions_or_newer]{C03,C11,C02} a row delivered by the remote side is handed to the database only if it is the version announced for it - the one the last-writer-wins rule and the deletion log were consulted for - or a newer one: never an older version, which could replace a newer stored row or bring back a deleted one
+            all_rows_as_announced(nodes@)
     { unimplemented!() }
     #[verifier::external_body]
     pub async fn add_edges(&self, room_id: Uid, edges: Vec<Edge>) -> (r: std::result::Result<Vec<Uid>, DbError>)
@@ -169,13 +175,16 @@ pub fn cut_collect_ids(remote_nodes: &mut HashSet<NodeIdentifier>, nodes: HashSe
 //@ attr #[verifier::loop_isolation(false)]
 //@ rewrite E3 "crate::Error" => "crate_error::Error" x*
 //@ cut "for node in nodes" => "cut_collect_ids(&mut remote_nodes, nodes);"
-//@ rewrite E21 "for mut node in nodes \{" => "for node0 in it: nodes invariant all_nodes_ok(it.seq()), all_rows_ok(nodes_to_insert@), { let mut node = node0;" x2
+//@ rewrite E21 "for mut node in nodes \{" => "for node0 in it: nodes invariant all_nodes_ok(it.seq()), all_rows_ok(nodes_to_insert@), all_rows_as_announced(nodes_to_insert@), { let mut node = node0;" x2
 //@ insert-each before-stmt ".delete_edges(edge_deletion)"
                 // [edge_deletions_ingested_only_after_signature_check] reference deletion records reach the database only out of the signature verification service
                 assert(all_edge_dels_ok(edge_deletion@));
 //@ insert-each before-stmt ".delete_nodes(node_deletion)"
                 // [node_deletions_ingested_only_after_signature_check] row deletion records reach the database only out of the signature verification service
                 assert(all_node_dels_ok(node_deletion@));
+//@ insert-each before-stmt "nodes_to_insert.push(nti)"
+                            // [delivered_row_is_the_announced_version_or_newer]{C03,C11,C02} a row delivered by the remote side goes on to the database only if it is the version announced for it - the one the last-writer-wins rule and the deletion log were consulted for - or a newer one (F42)
+                            assert(delivered_not_older(nti));
 //@ insert-each before-stmt ".add_nodes(room_id, nodes_to_insert)"
                     // [nodes_ingested_only_after_signature_check] rows reach the database only out of the signature verification service (the storage slot is set afterwards, it is not a signed field), and for the room being synchronised
                     assert(all_rows_ok(nodes_to_insert@));
